@@ -762,7 +762,7 @@ if want("outer"):
     # misorientation, symmetry) with every operand class (those and Vector3d, Miller); the sections above only pair
     # Quaternion x Quaternion / Vector3d and Rotation x Rotation / Vector3d.  Lazy and eager results must be the same
     # kind of object (class, shape, values, improper flags, symmetry) and equal the pairwise numpy reference.
-    for t in range(max(N // 50, 2)):
+    for t in range(min(max(N // 50, 2), 8)):
         for ci, (ca, cb) in enumerate(itertools.product(CLS_LEFT, CLS_RIGHT)):
             sa, sb = PAIRS_MIX[(t * 5 + ci) % len(PAIRS_MIX)]
             backend = (ci + t) % 2 == 0
@@ -819,7 +819,7 @@ if want("outer"):
 
     # ---- (2) the DEFAULT keyword path (chunk_size left at its default, progressbar=True: the `with ProgressBar()`
     # branch is separate code in every lazy method and is never entered above), positional arguments, degrees=True
-    for t in range(max(N // 50, 2)):
+    for t in range(min(max(N // 50, 2), 8)):
         sa, sb = R.choice(SHAPES), R.choice(SHAPES)
         so1, so2 = R.choice(SMALL), R.choice(SMALL)
         backend = t % 2 == 0
@@ -935,7 +935,7 @@ if want("outer"):
             ("transpose3", (2, 1, 3), lambda o: o.transpose(2, 0, 1)), ("flatten", (2, 2), lambda o: o.flatten()),
             ("rows-reversed", (3, 2), lambda o: o[::-1, ::-1])]
     nh = len(HIST)
-    for t in range(max(N // 4, 18)):
+    for t in range(min(max(N // 4, 18), 81)):
         # every history meets "id" on the other side (both orders) and a different history; all 3 x 9 in 27 rounds
         hh = (t + t // 3) % nh
         h1, h2 = [(hh, 0), (0, hh), (hh, (hh * 2 + 1) % nh)][t % 3]
@@ -984,7 +984,7 @@ if want("ori"):
               ((2, 2, 1), (2,)), ((2,), (1, 1, 3)), ((1, 2, 1, 2), (3,))]
     GP3 = [("D2", "D2"), ("C2h", "C2h"), ("D3", "T"), ("C3v", "Cs"), ("C1", "S4"), ("O", "D6"), ("Ci", "C2v")]
     FL3 = [("none", "none"), ("mixed", "none"), ("none", "mixed"), ("mixed", "mixed"), ("all", "one")]
-    for t in range(max(N // 12, 8)):
+    for t in range(min(max(N // 12, 8), 56)):
         ss, so = PAIRS3[t % len(PAIRS3)]
         g1, g2 = GP3[t % len(GP3)]
         fX, fY = FL3[t % len(FL3)]
@@ -1017,7 +1017,7 @@ if want("mis"):
     SH5 = [(2, 1, 2), (1, 2, 1), (1, 1, 1), (3,), (2, 2), (1, 3)]
     GP5 = [("D2", "C3"), ("C2h", "C2"), ("Cs", "Ci"), ("C3", "C3"), ("C1", "D2"), ("S4", "C2v")]
     FL5 = ["none", "mixed", "all", "one"]
-    for t in range(max(N // 25, 4)):
+    for t in range(min(max(N // 25, 4), 24)):
         s = SH5[t % len(SH5)]
         g1, g2 = GP5[t % len(GP5)]
         M = mk_rot(s, Misorientation, FL5[t % len(FL5)])
